@@ -361,6 +361,28 @@ func (c *valConfig) genVal(rt *rapid.T, depth int, pub bool) *Val {
 		v.Sub = []*Val{c.genPanicPayload(rt, depth, pub)}
 		return v
 	case "sv":
+		// (not where %p may apply: the address of a safe slice or map is public)
+		if !c.noWrappers && !(c.two && c.noPointers) && rapid.IntRange(0, 5).Draw(rt, "svc") == 0 {
+			// SafeValue-marked / registrable slice and map types, nil half of the time
+			switch rapid.IntRange(0, 3).Draw(rt, "svck") {
+			case 0:
+				v := c.leafS(rt, "SafeBytes", true, true)
+				if rapid.Bool().Draw(rt, "svnil") {
+					v.S = nil
+				}
+				return v
+			case 1:
+				v := c.leafS(rt, "svslice", true, false)
+				if rapid.Bool().Draw(rt, "svnil") {
+					v.S = nil
+				}
+				return v
+			case 2:
+				return &Val{K: "svmap", I: int64(rapid.IntRange(0, 2).Draw(rt, "svm"))}
+			default:
+				return &Val{K: "regslice", I: int64(rapid.IntRange(0, 2).Draw(rt, "rsl"))}
+			}
+		}
 		if rapid.IntRange(0, 3).Draw(rt, "svk") == 0 {
 			if rapid.Bool().Draw(rt, "svf") {
 				return c.leafF(rt, "svfloat", true)
